@@ -3,7 +3,7 @@
 // "Programs" are struct types built at run time with reflect.StructOf from the codec's tag
 // grammar. Every single-field layout (kind x offset x embedded or not), every adjacent and
 // right-aligned two-field layout and (thorough) three-field layouts are generated, filled with the
-// kind's value alphabet, and the real codec (Marshal / Unmarshal / UnmarshalAs) is compared with
+// kind's value alphabet, and the real codec (Marshal / Unmarshal / UnmarshalAs; UnmarshalArray / UnmarshalArrayElement on single-field layouts) is compared with
 // the hand-written per-kind reference encoders of verif/spec (spec.KindEncode), which know nothing
 // about the library's reflection tags.
 //
@@ -28,6 +28,7 @@ import (
 	"os/exec"
 	"reflect"
 	"sort"
+	"strings"
 	"sync"
 	"sync/atomic"
 	"time"
@@ -456,6 +457,28 @@ func decode(op string, p program, buf []byte) (s reflect.Value, err error, fails
 				return s, nil, []failure{{op, -2, "wrong-type", fmt.Sprintf("UnmarshalAs returned %T", res)}}
 			}
 		}
+	case "unmarshalArrayElement":
+		var res any
+		arr := reflect.New(reflect.SliceOf(p.t))
+		panicked, msg, _ = vk.Guard(func() { res, err = codec.UnmarshalArrayElement(buf, arr.Interface()) })
+		if !panicked && err == nil {
+			if s = reflect.ValueOf(res); !s.IsValid() || s.Type() != p.t {
+				return s, nil, []failure{{op, -2, "wrong-type", fmt.Sprintf("UnmarshalArrayElement returned %T", res)}}
+			}
+			// (the result is a copy of an addressable value: make it addressable again for the observers)
+			c := reflect.New(p.t).Elem()
+			c.Set(s)
+			s = c
+		}
+	case "unmarshalArray":
+		arr := reflect.New(reflect.SliceOf(p.t))
+		panicked, msg, _ = vk.Guard(func() { err = codec.UnmarshalArray([][]byte{buf}, arr.Interface()) })
+		if !panicked && err == nil {
+			if arr.Elem().Len() != 1 {
+				return s, nil, []failure{{op, -2, "wrong-type", fmt.Sprintf("UnmarshalArray of one message produced %d elements", arr.Elem().Len())}}
+			}
+			s = arr.Elem().Index(0)
+		}
 	case "unmarshalAs-pointer":
 		var res any
 		panicked, msg, _ = vk.Guard(func() { res, err = codec.UnmarshalAs(buf, reflect.New(p.t).Interface()) })
@@ -529,7 +552,12 @@ func evaluateWith(p program, l layout, vals []spec.KV, o options) []failure {
 	rejectsValid := false
 	for _, m := range messages {
 		var first []failure
-		for _, op := range []string{"unmarshal", "unmarshalAs", "unmarshalAs-pointer"} {
+		decoders := []string{"unmarshal", "unmarshalAs", "unmarshalAs-pointer"}
+		if len(l.Fields) <= 1 {
+			// the two array entry points share the decoder: exercised on the single-field layouts
+			decoders = append(decoders, "unmarshalArrayElement", "unmarshalArray")
+		}
+		for _, op := range decoders {
 			buf := append([]byte{}, m...)
 			name := op
 			if name == "unmarshalAs-pointer" {
@@ -549,7 +577,7 @@ func evaluateWith(p program, l layout, vals []spec.KV, o options) []failure {
 			}
 			// UnmarshalAs shares its decoder with Unmarshal: only what Unmarshal did not show is new
 			for _, f := range fs {
-				dup := has(fails, "unmarshalAs") && f.Op == "unmarshalAs"
+				dup := (has(fails, "unmarshalAs") && f.Op == "unmarshalAs") || (has(fails, f.Op) && strings.HasPrefix(f.Op, "unmarshalArray"))
 				for _, g := range first {
 					dup = dup || (g.Field == f.Field && g.Class == f.Class)
 				}
@@ -1090,6 +1118,26 @@ func main() {
 	})
 	vk.Parallel(len(jobs), func(i int) { run(&jobs[i]) })
 
+	// (7) named message types that share one name (see named.go), one after the other, twice
+	if shard == 0 {
+		progs := []namedProgram{namedA(), namedB(), namedC(), namedD()}
+		for round := 0; round < 2; round++ {
+			for i, np := range progs {
+				vals := []spec.KV{}
+				for _, f := range np.l.Fields {
+					vals = append(vals, pairAlphabets[f.Kind][round%len(pairAlphabets[f.Kind])])
+				}
+				for _, x := range evaluateWith(np.p, np.l, vals, options{Reject: true}) {
+					coll.add("C18/"+x.Op+"/same-named-types/"+x.Class, [2]int64{layouts + int64(i), int64(round)},
+						fmt.Sprintf("named type %s (one of four distinct local types that are all called msg), %s: %s", np.p.t, describe(np.l), x.What),
+						layoutCase{Layout: np.l, Values: vals, Opts: options{Reject: true}})
+				}
+				cases.Add(1)
+				distinct.Add(1)
+			}
+		}
+	}
+
 	res := workerResult{Cases: cases.Load(), Distinct: distinct.Load(), Layouts: layouts, Mine: int64(len(jobs)),
 		Types: typesBuilt.Load(), Calls: libraryCalls.Load(), PerFamily: map[string]int64{}, Samples: samples}
 	for f, n := range perFamily {
@@ -1190,7 +1238,7 @@ func parent(r *vk.Run) {
 	if r.Thorough() {
 		third = "every ordered triple of the 21 kind variants, adjacent, at offsets 2, 30 and end-aligned x 4 embedding patterns (none, middle, outer two, all) x (baseline tuple + each field over its small alphabet)"
 	}
-	r.Rule("struct types generated with reflect.StructOf: (1) every single-field layout = 20 kinds (17 + pointer variants of Date, DateTime, HHmm; the fixed-value byte in 10 tag spellings) x every offset 2..63 at which the kind fits x plain/embedded x the kind's value alphabet (boundaries, walking bits, byte-distinct patterns, all 256 bytes; every HH:mm 00:00..24:00 and every IPv4 octet value at the first and last offset in the quick tier, at every offset plain and embedded in the thorough tier); (2) every two-field layout = every ordered pair of 21 kind variants (19 kinds + fixed byte written in decimal and in hex) x every offset of the first field x second field adjacent and right-aligned to byte 63 x 4 embedding patterns (none, second, first, both) x the cross product of the two small alphabets, plus every adjacent mixed (one embedded, one not) layout again with both fields carrying the same Go name, baseline tuple; (3) three-field layouts: " + third + "; (4) every function code 0..255 x every decimal/0x/0X/upper-case spelling x all 255 wrong codes on decode; (5) every fixed value 0..255 x every spelling at offsets 2, 33, 63 plain and embedded x all 255 wrong bytes, plus five values in every spelling at every other offset; (6) SOM tags 0x17/0x19 in every spelling (emission). A case is one (layout, value tuple); cases are pairwise distinct by construction (alphabets are duplicate-free, coinciding adjacent/right-aligned placements are generated once, fixed-value layouts of (5) that repeat a tag spelling of (1) are not counted); non-trivial = the reference message has at least one non-zero byte after the function code")
+	r.Rule("struct types generated with reflect.StructOf: (1) every single-field layout = 20 kinds (17 + pointer variants of Date, DateTime, HHmm; the fixed-value byte in 10 tag spellings) x every offset 2..63 at which the kind fits x plain/embedded x the kind's value alphabet (boundaries, walking bits, byte-distinct patterns, all 256 bytes; every HH:mm 00:00..24:00 and every IPv4 octet value at the first and last offset in the quick tier, at every offset plain and embedded in the thorough tier); (2) every two-field layout = every ordered pair of 21 kind variants (19 kinds + fixed byte written in decimal and in hex) x every offset of the first field x second field adjacent and right-aligned to byte 63 x 4 embedding patterns (none, second, first, both) x the cross product of the two small alphabets, plus every adjacent mixed (one embedded, one not) layout again with both fields carrying the same Go name, baseline tuple; (3) three-field layouts: " + third + "; (4) every function code 0..255 x every decimal/0x/0X/upper-case spelling x all 255 wrong codes on decode; (5) every fixed value 0..255 x every spelling at offsets 2, 33, 63 plain and embedded x all 255 wrong bytes, plus five values in every spelling at every other offset; (6) SOM tags 0x17/0x19 in every spelling (emission); (7) four hand-written NAMED local struct types that share the name msg (reflect.Type.String() equal, layouts different), run one after the other, twice. A case is one (layout, value tuple); cases are pairwise distinct by construction (alphabets are duplicate-free, coinciding adjacent/right-aligned placements are generated once, fixed-value layouts of (5) that repeat a tag spelling of (1) are not counted); non-trivial = the reference message has at least one non-zero byte after the function code")
 	r.Assume("reference encoders spec.KindEncode are written by hand from the protocol; reflect.StructOf types behave like declared struct types for the codec (same reflect API)")
 	r.Assume("time.Local = UTC (zone behaviour of dates belongs to C13/C05)")
 	r.Assume("function codes and tag spellings of the field layouts are assigned by a fixed arithmetic rule over (offset, kind); their full product is enumerated in family (4)")
